@@ -266,7 +266,14 @@ def worker(args: dict) -> dict:
         def execute(case, count=True):
             """returns None or a Violation that is new (not known, not a swallowed bucket)"""
             state["exec_n"] = state.get("exec_n", 0) + 1
-            if state["exec_n"] % 400 == 0:
+            hungry = False
+            if state["exec_n"] % 20 == 0:
+                try:
+                    with open("/proc/self/statm") as f_:
+                        hungry = int(f_.read().split()[1]) * os.sysconf("SC_PAGE_SIZE") > 6e9
+                except Exception:  # noqa: BLE001
+                    hungry = False
+            if state["exec_n"] % 400 == 0 or hungry:
                 # long runs compile thousands of shapes: drop jax's in-memory executables now and then
                 try:
                     import gc
@@ -345,6 +352,7 @@ def worker(args: dict) -> dict:
                 if v is not None:
                     if state["fail_t"] is None:
                         state["fail_t"] = time.time()
+                        _report_partial(dict(case=case, message=str(v), bucket=v.bucket(), oracle=v.oracle, site=v.site, shrunk=False, origin="generated"))
                     state["last_fail"] = json.dumps(case, sort_keys=True, default=str)
                     state["failed"].add(state["last_fail"])
                     state["v"] = v
@@ -414,7 +422,19 @@ def _replay_worker(args):
 # --------------------------------------------------------------------------------------
 # process management: one process per shard, results over pipes, dead workers are noticed
 # --------------------------------------------------------------------------------------
+_CONN = [None]   # the child's end of the pipe: first sightings of a failure are reported before shrinking starts
+
+
+def _report_partial(failure: dict):
+    try:
+        if _CONN[0] is not None:
+            _CONN[0].send(dict(partial=True, failure=failure))
+    except Exception:  # noqa: BLE001
+        pass
+
+
 def _child(fn_name: str, arg, conn):
+    _CONN[0] = conn
     try:
         res = globals()[fn_name](arg)
     except BaseException:  # noqa: BLE001
@@ -436,6 +456,7 @@ def run_processes(ctx, fn_name: str, args: List[Any], timeout_s: float) -> List[
         child.close()
         procs.append((p, parent))
     results: List[Any] = [None] * len(args)
+    partials: List[List[dict]] = [[] for _ in args]
     t_end = time.time() + timeout_s
     pending = set(range(len(args)))
     while pending:
@@ -443,9 +464,14 @@ def run_processes(ctx, fn_name: str, args: List[Any], timeout_s: float) -> List[
             p, conn = procs[i]
             got = False
             try:
-                if conn.poll(0.05):
-                    results[i] = conn.recv()
+                while conn.poll(0.05):
+                    msg = conn.recv()
+                    if isinstance(msg, dict) and msg.get("partial"):
+                        partials[i].append(msg["failure"])
+                        continue
+                    results[i] = msg
                     got = True
+                    break
             except (EOFError, OSError):
                 pass
             if got:
@@ -454,18 +480,24 @@ def run_processes(ctx, fn_name: str, args: List[Any], timeout_s: float) -> List[
             elif not p.is_alive():
                 # one last look: the answer may have arrived just before exit
                 try:
-                    if conn.poll(0.2):
-                        results[i] = conn.recv()
+                    while conn.poll(0.2):
+                        msg = conn.recv()
+                        if isinstance(msg, dict) and msg.get("partial"):
+                            partials[i].append(msg["failure"])
+                            continue
+                        results[i] = msg
                         got = True
+                        break
                 except (EOFError, OSError):
                     pass
                 if not got:
-                    results[i] = dict(error=f"worker process died without a result (exit code {p.exitcode})", died=True, shard=i)
+                    results[i] = dict(error=f"worker process died without a result (exit code {p.exitcode})", died=True, shard=i,
+                                      partial_failures=partials[i])
                 pending.discard(i)
         if time.time() > t_end:
             for i in pending:
                 procs[i][0].kill()
-                results[i] = dict(error="worker exceeded the run's wall-clock limit and was killed", died=True, shard=i)
+                results[i] = dict(error="worker exceeded the run's wall-clock limit and was killed", died=True, shard=i, partial_failures=partials[i])
             break
     return results
 
@@ -564,7 +596,8 @@ def main(argv=None) -> int:
     results = []
     for i, r in enumerate(raw):
         if r.get("died"):
-            r = dict(shard=i, evaluations=0, nontrivial_keys=[], labels={}, samples=[], failures=[], known_hits={}, timeouts=0,
+            # failures the worker had reported before it died (first sighting, not shrunk) still count
+            r = dict(shard=i, evaluations=0, nontrivial_keys=[], labels={}, samples=[], failures=list(r.get("partial_failures") or []), known_hits={}, timeouts=0,
                      dup_bucket=0, error=r["error"], wall=0.0)
         results.append(r)
 
@@ -623,15 +656,18 @@ def main(argv=None) -> int:
         print(ln)
     print(f"{prop} tier={a.tier} seed={seed} evaluations={evaluations} distinct_nontrivial={len(keys)} "
           f"known_hits={dict(known_hits)} timeouts={coverage['timeouts_inconclusive']} wall={wall:.1f}s")
-    if errors:
-        for r in errors:
-            print(f"HARNESS-ERROR shard {r['shard']}:\n{r['error']}")
-        return 2
     if failures:
+        # a violation with its replay file stands on its own, whatever happened to other shards
+        for r in errors:
+            print(f"note: shard {r['shard']} did not finish: {str(r['error']).strip().splitlines()[-1][:300]}")
         for p, fl in replay_paths:
             print(f"  {fl['message'][:600]}")
             print(f"VIOLATION property={prop} replay={p}")
         return 1
+    if errors:
+        for r in errors:
+            print(f"HARNESS-ERROR shard {r['shard']}:\n{r['error']}")
+        return 2
     if evaluations == 0:
         print("HARNESS-ERROR no case was evaluated")
         return 2
